@@ -49,10 +49,10 @@ Definition sx_cfg (x : sx) : option cfg :=
 
 Definition sx_wopts (x : sx) : option wopts :=
   match x with
-  | SL [r; f; d; lang; pos] =>
-      match sx_bool r, sx_bool f, sx_bool d, sx_tree lang, sx_opt sx_int pos with
-      | Some r, Some f, Some d, Some lang, Some pos => Some (mkWopts r f d lang pos)
-      | _, _, _, _, _ => None
+  | SL [r; f; d; lang; pos; il] =>
+      match sx_bool r, sx_bool f, sx_bool d, sx_tree lang, sx_opt sx_int pos, sx_bool il with
+      | Some r, Some f, Some d, Some lang, Some pos, Some il => Some (mkWopts r f d lang pos il)
+      | _, _, _, _, _, _ => None
       end
   | _ => None
   end.
